@@ -187,6 +187,20 @@ def run(ctx):
                         break
                 if not np.array_equal(ampm, ref_m):
                     ctx.violate("the full amplitude array obtained earlier changed after blocks were computed from the same object (matrix scattering)", cj, {"kind": "amp_blocks_kept"})
+            # the pairs of a frame may be handed over as views into a larger table (every other row of a pairs table, a column of
+            # an (n, 2) array): same amplitudes as for packed copies of the same numbers, functions and matrices alike
+            table = np.stack([np.asarray(tx), np.asarray(rx)], axis=1).astype(np.int_)
+            big = np.repeat(table, 2, axis=0)
+            tx_v, rx_v = big[::2, 0], big[::2, 1]
+            ctx.count("amp:strided_pairs")
+            try:
+                am_v = model.model_amplitudes_factory(tx_v, rx_v, view, rw, mdict, scat_angle=a)[...]
+                af_v = model.model_amplitudes_factory(tx_v, rx_v, view, rw, sdict, scat_angle=a)[...]
+                ok_v = np.array_equal(am_v, ampm) and np.array_equal(af_v, full)
+            except Exception as e:
+                ok_v = False
+            if not ok_v:
+                ctx.violate("model amplitudes for tx / rx given as strided views (columns of a pairs table) differ from those for packed copies of the same pairs", cj, {"kind": "amp_strided"})
             interp = scat.interpolate_matrix(np.ascontiguousarray(M))
             want_m = interp(ttx[:, tx] - a, trx[:, rx] - a) * Q[:, tx] * Qp[:, rx]
             if np.abs(ampm - want_m).max() > 1e-12 * scale:
